@@ -27,17 +27,26 @@ def jobs(tier):
     for j in c01.jobs(tier):
         js.append(dict(j, which=["C02"]))
     # clause B on the logic-level configuration
-    tpls = ["tuple", "rgb", "hex6"] if tier == "quick" else apimod.TEMPLATES
+    tpls = ["tuple", "rgb", "hex6"] if tier == "quick" else ["tuple", "list", "rgb", "hsl", "rgba", "hex6", "named"]
     for tpl in tpls:
         for mode, large, very in c01.settings():
             j = dict(kind="api", tpl=tpl, mode=mode, large=large, very=very, config="uf", g={"monotone": True},
                      rec={"monotone": True}, which=["C02B"])
             if mode == 2 and tier == "quick":
                 j["caps"] = {"15": 3}
-            js.append(j)
+                js.append(j)
+            elif mode == 2:
+                if tpl in ("tuple", "rgb"):
+                    for i in range(4):
+                        js.append(dict(j, shard=[i, 4, 40]))
+            else:
+                js.append(j)
     # clause B1 on the real generate_accessible_color (search routines as contract stubs), symbolic schedules
-    for ks in ([1, 2] if tier == "quick" else [1, 2, 3]):
+    for ks in [1, 2]:
         js.append(dict(kind="G", ks=ks))
+    if tier != "quick":
+        for i in range(16):
+            js.append(dict(kind="G", ks=3, shard=[i, 16, 14]))
     return js
 
 
